@@ -165,6 +165,9 @@ impl<K: Kit> Rig<K> {
         let pd = Arc::new(Pd::<K> { space: space.clone(), start_states: vec![start.clone()], goal: goal.clone() });
         let mut drv = Drv::<K>::new(&sc.params);
         goal.mode.set(GoalMode::Script);
+        if sc.params.bias >= 1.0 {
+            space.expire_when_exhausted.set(true);
+        }
         if sc.params.pk == Pk::Connect {
             goal.script.borrow_mut().push(sc.goal_root);
         }
@@ -233,6 +236,8 @@ impl<K: Kit> Rig<K> {
     /// PRM: build the roadmap from exactly these samples.
     pub fn construct(&mut self, samples: &[u8]) -> Result<(), PlanningError> {
         self.space.push_script(samples);
+        // a roadmap builder may draw several samples per deadline check: let it finish (see seams)
+        self.space.expire_when_exhausted.set(true);
         self.drv.set_prm_timeout(iters_secs(samples.len().max(1)));
         if samples.is_empty() {
             // a zero-length build: timeout negative => loop exits at the first check
